@@ -320,7 +320,9 @@ pub enum SDyn {
     Src(BoxSrc),
     Unit(Box<UnitPipe<SDyn>>),
     Pipe(Box<Pipe<SDyn, Dyn>>),
+    #[cfg(feature = "or_source")]
     OrPipe(Box<<Pipe<SDyn, Dyn> as BitOr<Dyn>>::Output>),
+    #[cfg(feature = "or_source")]
     OrUnit(Box<<UnitPipe<SDyn> as BitOr<Dyn>>::Output>),
 }
 impl Source for SDyn {
@@ -330,7 +332,9 @@ impl Source for SDyn {
             SDyn::Src(s) => s.source(),
             SDyn::Unit(u) => u.source(),
             SDyn::Pipe(p) => p.source(),
+            #[cfg(feature = "or_source")]
             SDyn::OrPipe(p) => p.source(),
+            #[cfg(feature = "or_source")]
             SDyn::OrUnit(p) => p.source(),
         }
     }
@@ -353,7 +357,9 @@ pub enum KDyn {
     Snk(SinkLeaf),
     Unit(Box<UnitPipe<KDyn>>),
     Pipe(Box<Pipe<Dyn, KDyn>>),
+    #[cfg(feature = "or_sink")]
     OrPipe(Box<<Pipe<Dyn, Dyn> as BitOr<KDyn>>::Output>),
+    #[cfg(feature = "or_sink")]
     OrUnit(Box<<UnitPipe<Dyn> as BitOr<KDyn>>::Output>),
 }
 impl Sink<Q> for KDyn {
@@ -362,7 +368,9 @@ impl Sink<Q> for KDyn {
             KDyn::Snk(s) => s.sink(x),
             KDyn::Unit(u) => u.sink(x),
             KDyn::Pipe(p) => p.sink(x),
+            #[cfg(feature = "or_sink")]
             KDyn::OrPipe(p) => p.sink(x),
+            #[cfg(feature = "or_sink")]
             KDyn::OrUnit(p) => p.sink(x),
         }
     }
@@ -374,7 +382,9 @@ impl Finalize for KDyn {
             KDyn::Snk(s) => s.finalize(),
             KDyn::Unit(u) => u.finalize(),
             KDyn::Pipe(p) => p.finalize(),
+            #[cfg(feature = "or_sink")]
             KDyn::OrPipe(p) => p.finalize(),
+            #[cfg(feature = "or_sink")]
             KDyn::OrUnit(p) => p.finalize(),
         }
     }
@@ -460,10 +470,17 @@ fn build_sdyn(sh: &Sh, parts: &mut Parts) -> SDyn {
         Sh::Or(a, b) => {
             let l = build_sdyn(a, parts);
             let r = build_dyn(b, parts);
-            match l {
-                SDyn::Pipe(p) => SDyn::OrPipe(Box::new(*p | r)),
-                SDyn::Unit(u) => SDyn::OrUnit(Box::new(*u | r)),
-                _ => panic!("harness: `|` needs a Pipe or UnitPipe on the left"),
+            #[cfg(feature = "or_source")]
+            {
+                match l {
+                    SDyn::Pipe(p) => SDyn::OrPipe(Box::new(*p | r)),
+                    SDyn::Unit(u) => SDyn::OrUnit(Box::new(*u | r)),
+                    _ => panic!("harness: `|` needs a Pipe or UnitPipe on the left"),
+                }
+            }
+            #[cfg(not(feature = "or_source"))]
+            {
+                SDyn::Pipe(Box::new(Pipe::new(l, r)))
             }
         }
         _ => panic!("harness: bad source pipe shape"),
@@ -481,10 +498,17 @@ fn build_kdyn(sh: &Sh, parts: &mut Parts) -> KDyn {
         Sh::Or(a, b) => {
             let l = build_dyn(a, parts);
             let r = build_kdyn(b, parts);
-            match l {
-                Dyn::Pipe(p) => KDyn::OrPipe(Box::new(*p | r)),
-                Dyn::Unit(u) => KDyn::OrUnit(Box::new(*u | r)),
-                _ => panic!("harness: `|` needs a Pipe or UnitPipe on the left"),
+            #[cfg(feature = "or_sink")]
+            {
+                match l {
+                    Dyn::Pipe(p) => KDyn::OrPipe(Box::new(*p | r)),
+                    Dyn::Unit(u) => KDyn::OrUnit(Box::new(*u | r)),
+                    _ => panic!("harness: `|` needs a Pipe or UnitPipe on the left"),
+                }
+            }
+            #[cfg(not(feature = "or_sink"))]
+            {
+                KDyn::Pipe(Box::new(Pipe::new(l, r)))
             }
         }
         _ => panic!("harness: bad sink pipe shape"),
